@@ -94,7 +94,7 @@ def generate(rng, tier):
         else:
             overlap = dict(inputs[i]); overlap["overlap"] = True
         mode = rng.choice([MODES[1], MODES[2]])  # stdout / check: whole-output comparison
-    return {"world": {"files": files}, "inputs": inputs, "mode": list(mode), "overlap": overlap, "hashseed": rng.below(1 << 32),
+    return {"world": {"files": files}, "inputs": inputs, "mode": list(mode), "overlap": overlap, "tier": tier, "hashseed": rng.below(1 << 32),
             "permseed": rng.below(1 << 32), "cli": rng.choice([[], [], ["--config", "max_width=90"], ["--edition", "2021"]])}
 
 
@@ -238,7 +238,7 @@ def execute(case):
         want_status = max(s[0].exit if s[0].exit is not None else 101 for s in single)
         # (a) permutations
         perms = list(itertools.permutations(range(n)))
-        if len(perms) > 6:
+        if len(perms) > (6 if case.get("tier") != "thorough" else 24):
             from ..prng import Rng
             r = Rng(case["permseed"])
             perms = [tuple(range(n))] + [tuple(r.shuffle(list(range(n)))) for _ in range(5)]
